@@ -45,6 +45,24 @@ def style_mappings(g):
         g.check(f"DFXP attributes of {sorted(d)}", attrs == ({"tts:fontStyle": "italic"} if flags[0] else {}), {"attrs": attrs})
         tag = StubTag("span", {"tts:fontStyle": "italic"} if flags[0] else {})
         g.check(f"DFXP attributes read back {sorted(d)}", DFXPReader()._convert_style(tag) == ({"italics": True} if flags[0] else {}), {})
+    # ... and in the company of every subset of the other style keys the readers produce (a span written with inline
+    # positioning comes back with text-align; DFXP / SAMI documents carry fonts, colours, classes): the italic / bold /
+    # underline attributes depend on their own flags only
+    OTHERS = {"text-align": "right", "font-family": "Arial", "font-size": "10pt", "color": "#ffeedd", "class": "k1", "display-align": "after"}
+    for flags in itertools.product([False, True], repeat=3):
+        for pick in itertools.product([False, True], repeat=len(OTHERS)):
+            d = {k: True for k, f in zip(KEYS, flags) if f}
+            d.update({k: v for (k, v), f in zip(OTHERS.items(), pick) if f})
+            attrs = dfxp_base._recreate_style(dict(d), StubSoup())
+            g.check(f"DFXP italic attribute of {sorted(d)}", (attrs.get("tts:fontStyle") == "italic") == flags[0] and
+                    ("tts:fontStyle" in attrs) == flags[0], {"attrs": attrs})
+            css = SW()._recreate_style(dict(d))
+            got = (css.get("font-style") == "italic", css.get("font-weight") == "bold", css.get("text-decoration") == "underline")
+            g.check(f"SAMI css flags of {sorted(d)}", got == flags, {"css": css})
+            ext = {"text-align": "tts:textAlign", "font-family": "tts:fontFamily", "font-size": "tts:fontSize", "color": "tts:color"}
+            tag = StubTag("span", dict({"tts:fontStyle": "italic"} if flags[0] else {}, **{ext[k]: v for k, v in d.items() if k in ext}))
+            back = DFXPReader()._convert_style(tag)
+            g.check(f"DFXP italic attribute read back with {sorted(d)}", (back.get("italics") is True) == flags[0], {"style": back})
     for k, (o, cl) in {"italics": ("<i>", "</i>"), "bold": ("<b>", "</b>"), "underline": ("<u>", "</u>"), "other": ("", "")}.items():
         g.check(f"WebVTT tag of {k}", VW._convert_style_to_text_tag(k) == [o, cl], {})
     tagd = StubTag("span", {"tts:fontWeight": "bold", "tts:textDecoration": "underline noLineThrough", "tts:fontStyle": "italic"})
